@@ -154,7 +154,11 @@ class Env:
     def load_tree(self, tree):
         self._skeleton_loaded = False
         self.cache.clear()
-        self.eolib = self.ws.load_tree(tree)
+        self.load_stage = "generate"       # where a failure happened, for callers that tell the two apart
+        self.ws.generate(tree)
+        self.load_stage = "import"
+        self.eolib = self.ws.import_eolib()
+        self.load_stage = None
         return self.eolib
 
 
